@@ -15,7 +15,8 @@ import sys
 import time
 
 HERE = os.path.dirname(os.path.dirname(os.path.abspath(__file__)))
-SCRATCH = '/tmp/cachelito_mut/repo'
+ROOT = os.environ.get('MUT_ROOT', '/tmp/cachelito_mut')  # one per concurrent runner
+SCRATCH = ROOT + '/repo'
 M = []
 
 
@@ -579,9 +580,9 @@ mut('m37_negated_fit_off_by_one', ['C05'], G, """                if current_mem 
 
 
 def apply(m):
-    if os.path.exists('/tmp/cachelito_mut'):
-        shutil.rmtree('/tmp/cachelito_mut')
-    os.makedirs('/tmp/cachelito_mut')
+    if os.path.exists(ROOT):
+        shutil.rmtree(ROOT)
+    os.makedirs(ROOT)
     subprocess.check_call(['rsync', '-a', '--exclude', 'target', '--exclude', '.git', '/repo/', SCRATCH + '/'])
     if m['file'].endswith('/*'):
         # rename across a whole source directory
@@ -636,7 +637,7 @@ def main():
         return
     which = sys.argv[2]
     allchecks = '--all-checks' in sys.argv
-    sel = M if which == 'all' else [m for m in M if m['id'].startswith(which)]
+    sel = M if which == 'all' else [m for m in M if any(m['id'].startswith(w) for w in which.split(','))]
     for m in sel:
         t0 = time.time()
         err = apply(m)
@@ -651,7 +652,7 @@ def main():
         print(json.dumps(res))
         with open(os.path.join(HERE, 'notes', 'mutation_results.jsonl'), 'a') as f:
             f.write(json.dumps(res) + '\n')
-    shutil.rmtree('/tmp/cachelito_mut', ignore_errors=True)
+    shutil.rmtree(ROOT, ignore_errors=True)
 
 
 if __name__ == '__main__':
